@@ -12,16 +12,32 @@ use std::time::Duration;
 use tokio::time::Instant;
 use tonic::Status;
 
+/// The longest piece of a request value that gets repeated in a status message.
+const MAX_ECHOED_CHARS: usize = 256;
+
+/// Shortens a value taken from a request before it is repeated in a status message.
+///
+/// A status travels in HTTP/2 trailers, which are limited in size (16 KiB for the
+/// standard clients): a status that repeats an oversized name does not reach the client
+/// at all, the call fails with a protocol error instead.
+pub(crate) fn echo(value: &str) -> std::borrow::Cow<'_, str> {
+    match value.char_indices().nth(MAX_ECHOED_CHARS) {
+        None => std::borrow::Cow::Borrowed(value),
+        Some((end, _)) => std::borrow::Cow::Owned(format!("{}...", &value[..end])),
+    }
+}
+
 /// Parses the topic name.
 pub(crate) fn parse_topic_name(raw_value: &str) -> Result<TopicName, Status> {
-    TopicName::try_parse(raw_value)
-        .ok_or_else(|| Status::invalid_argument(format!("Invalid topic name '{}'", &raw_value)))
+    TopicName::try_parse(raw_value).ok_or_else(|| {
+        Status::invalid_argument(format!("Invalid topic name '{}'", echo(raw_value)))
+    })
 }
 
 /// Parses the subscription name.
 pub(crate) fn parse_subscription_name(raw_value: &str) -> Result<SubscriptionName, Status> {
     SubscriptionName::try_parse(raw_value).ok_or_else(|| {
-        Status::invalid_argument(format!("Invalid subscription name '{}'", &raw_value))
+        Status::invalid_argument(format!("Invalid subscription name '{}'", echo(raw_value)))
     })
 }
 
@@ -29,7 +45,7 @@ pub(crate) fn parse_subscription_name(raw_value: &str) -> Result<SubscriptionNam
 pub(crate) fn parse_ack_id(raw_value: &str) -> Result<AckId, Status> {
     AckId::parse(raw_value).map_err(|e| match e {
         AckIdParseError::Malformed => {
-            Status::invalid_argument(format!("Invalid ack ID '{}'", &raw_value))
+            Status::invalid_argument(format!("Invalid ack ID '{}'", echo(raw_value)))
         }
     })
 }
@@ -97,8 +113,9 @@ pub(crate) fn parse_page_token(raw_value: &str) -> Result<Option<PageToken>, Sta
 
 /// Parses a project ID form the format `projects/{project_id}`.
 pub(crate) fn parse_project_id(raw_value: &str) -> Result<String, Status> {
-    return parse(raw_value)
-        .ok_or_else(|| Status::invalid_argument(format!("Invalid project name '{}'", &raw_value)));
+    return parse(raw_value).ok_or_else(|| {
+        Status::invalid_argument(format!("Invalid project name '{}'", echo(raw_value)))
+    });
 
     /// The inner function that parses an option.
     #[inline(always)]
